@@ -266,6 +266,9 @@ class IndexedCache:
 
         :param assignment: The assignment under which the cached expression was completely evaluated.
         """
+        if not self.keys:
+            # a cache without keys (the cached expression has no variable, e.g. a constant) cannot store anything.
+            return
         if not any(k in assignment for k in self.keys):
             self.seen_set.add({})
 
